@@ -509,32 +509,46 @@ impl KeyValueStore {
         let verif_failed = crate::verif::FailedWrite::new(verif_seq_no);
         #[cfg(rescrv_blue_verif)]
         crate::verif::point("kvs.write.linked", [verif_seq_no, 0, 0]);
-        let mut log_batch = sst::log::WriteBatch::default();
-        for entry in batch.entries.iter() {
-            log_batch.insert(KeyValueRef::from(entry))?;
-        }
-        self.poison(log.append(log_batch))?;
-        #[cfg(rescrv_blue_verif)]
-        crate::verif::point("kvs.write.logged", [verif_seq_no, 0, 0]);
-        self.poison(memtable.write(&mut batch))?;
+        // NOTE:  A write that fails leaves the wait list the way every other write does: in its
+        // turn, under the store mutex, waking the new head.  A guard dropped by a bare `?` unlinks
+        // without a notification (when the failed write was the head, the write behind it, and
+        // with it every later write and the next memtable rotation, sleeps forever) and out of
+        // turn (its slot is reclaimed only when the head moves, so failing writes fill the ring
+        // behind one slow write, and `link` then waits for a slot while it holds the store mutex
+        // the slow write needs in order to leave).
+        let res = (|| -> Result<(), SError> {
+            let mut log_batch = sst::log::WriteBatch::default();
+            for entry in batch.entries.iter() {
+                log_batch.insert(KeyValueRef::from(entry))?;
+            }
+            self.poison(log.append(log_batch))?;
+            #[cfg(rescrv_blue_verif)]
+            crate::verif::point("kvs.write.logged", [verif_seq_no, 0, 0]);
+            self.poison(memtable.write(&mut batch))
+        })();
         drop(memtable);
         drop(log);
         #[cfg(rescrv_blue_verif)]
-        crate::verif::point("kvs.write.inserted", [verif_seq_no, 0, 0]);
+        crate::verif::point(
+            if res.is_ok() { "kvs.write.inserted" } else { "kvs.write.failed" },
+            [verif_seq_no, 0, 0],
+        );
         let mut state = self.state.lock().unwrap();
         while !wait_guard.is_head() {
             #[cfg(rescrv_blue_verif)]
             crate::verif::point("kvs.write.wait.locked", [verif_seq_no, 0, 0]);
             state = wait_guard.naked_wait(state);
         }
-        state.visible_seq_no = seq_no;
+        // A failed write has inserted nothing: there is nothing of it to publish.  The next write
+        // to leave publishes its own number, which covers the gap.
+        if res.is_ok() {
+            state.visible_seq_no = seq_no;
+        }
         drop(wait_guard);
         #[cfg(rescrv_blue_verif)]
-        crate::verif::point("kvs.write.finish.locked", [verif_seq_no, state.seq_no, 0]);
+        verif_failed.leave_locked(res.is_ok(), state.seq_no);
         self.wait_list.notify_head();
-        #[cfg(rescrv_blue_verif)]
-        verif_failed.disarm();
-        Ok(())
+        res
     }
 
     pub fn load(&self, key: &[u8], is_tombstone: &mut bool) -> Result<Option<Vec<u8>>, SError> {
